@@ -418,7 +418,7 @@ func (rs reqShape) model() (scheme, xfp, host, path, rawq string, ok bool) {
 }
 
 func runCase(w *world, sc scenario, rs reqShape, idx int) c.Case {
-	scheme, xfp, host, path, rawq, ok := rs.model()
+	_, _, _, _, _, ok := rs.model()
 	if !ok {
 		c.Must(fmt.Errorf("generator produced an unparsable target %q", rs.Target))
 	}
@@ -441,7 +441,12 @@ func runCase(w *world, sc scenario, rs reqShape, idx int) c.Case {
 	_ = released
 	o := doRaw(w.addr, req)
 	calls := w.backend.takeCalls()
+	return emitCase(w, sc, rs, req, o, calls)
+}
 
+// emitCase renders one observed response together with its scenario as a Coq case.
+func emitCase(w *world, sc scenario, rs reqShape, req rawReq, o obsResp, calls int) c.Case {
+	scheme, xfp, host, path, rawq, _ := rs.model()
 	user := "None"
 	if sc.User {
 		user = "(Some " + c.Str("user@example.com") + ")"
@@ -735,6 +740,101 @@ func callbackOK(w *world, rs reqShape, idx int) (c.Case, bool) {
 	return runCase(w, sc, rs, idx), true
 }
 
+// stormCases: many plain-HTTP requests IN FLIGHT AT THE SAME TIME through one secure-cookie proxy,
+// every one with its own host / path / query, sent over persistent connections by concurrent
+// clients. Each response is judged on its own by the ordinary redirect clause (301 to https, same
+// host, same decoded path and query, upstream not called): per-request state must not be shared
+// between requests. All responses whose Location does not carry the request's own unique token
+// (and all missing responses) are emitted as cases, plus a sample of the others; the judgement is
+// Coq's. Timing can hide an interference but cannot raise a false alarm.
+func stormCases(r *c.Rng, dir string, clients, perClient, sample int) []c.Case {
+	w := buildWorld(single(worldCfg{Secure: true, Replace: true}), dir)
+	defer w.close()
+	w.backend.set(script{Status: 200})
+	type item struct {
+		rs reqShape
+		o  obsResp
+		id string
+	}
+	results := make([][]item, clients)
+	var wg sync.WaitGroup
+	start := make(chan struct{})
+	for g := 0; g < clients; g++ {
+		wg.Add(1)
+		go func(g int) {
+			defer wg.Done()
+			var conn net.Conn
+			var br *bufio.Reader
+			<-start
+			for i := 0; i < perClient; i++ {
+				id := fmt.Sprintf("c%d-n%d", g, i)
+				host := []string{"app.example.test", "app.example.test:8080", "storm" + c.Itoa(g) + ".example.test"}[i%3]
+				target := []string{"/storm/" + id + "?id=" + id, "/oauth2/callback?code=code-of-" + id + "&state=" + id, "/doc%20" + id + "/x?q=" + id + "&r=1"}[(i/3)%3]
+				rs := reqShape{Host: host, Target: target}
+				if conn == nil {
+					var err error
+					conn, err = net.DialTimeout("tcp", w.addr, 5*time.Second)
+					if err != nil {
+						c.Must(fmt.Errorf("cannot reach the proxy under test: %v", err))
+					}
+					br = bufio.NewReader(conn)
+				}
+				conn.SetDeadline(time.Now().Add(20 * time.Second))
+				var o obsResp
+				if _, err := fmt.Fprintf(conn, "GET %s HTTP/1.1\r\nHost: %s\r\n\r\n", target, host); err == nil {
+					if resp, err := http.ReadResponse(br, nil); err == nil {
+						io.Copy(io.Discard, resp.Body)
+						resp.Body.Close()
+						o = obsResp{Responded: true, Status: resp.StatusCode, Header: resp.Header, Trailer: resp.Trailer}
+					}
+				}
+				if !o.Responded { // connection aborted by the server: start a new one for the next request
+					conn.Close()
+					conn = nil
+				}
+				results[g] = append(results[g], item{rs, o, id})
+			}
+			if conn != nil {
+				conn.Close()
+			}
+		}(g)
+	}
+	close(start)
+	wg.Wait()
+	calls := w.backend.takeCalls()
+	sc := scenario{Name: "storm-plain-http", Class: "LCerts"}
+	var suspicious, rest []item
+	for _, l := range results {
+		for _, it := range l {
+			loc := ""
+			if it.o.Responded {
+				loc = it.o.Header.Get("Location")
+			}
+			if !it.o.Responded || strings.Count(loc, it.id) != strings.Count(it.rs.Target, it.id) || !strings.Contains(loc, "://"+it.rs.Host+"/") {
+				suspicious = append(suspicious, it)
+			} else {
+				rest = append(rest, it)
+			}
+		}
+	}
+	if len(suspicious) > 40 {
+		suspicious = suspicious[:40]
+	}
+	r.Shuffle(len(rest), func(i, j int) { rest[i], rest[j] = rest[j], rest[i] })
+	if len(rest) > sample {
+		rest = rest[:sample]
+	}
+	var out []c.Case
+	for _, it := range append(suspicious, rest...) {
+		cs := emitCase(w, sc, it.rs, rawReq{}, it.o, calls)
+		if m, ok := cs.JSON.(map[string]interface{}); ok {
+			m["concurrent_requests_in_storm"] = clients * perClient
+		}
+		out = append(out, cs)
+	}
+	return out
+}
+
 func main() {
 	a := c.ParseArgs()
 	c.Quiet()
@@ -758,6 +858,13 @@ func main() {
 		}
 		cases = append(cases, runCase(w, sc, cc.R, len(cases)))
 		w.close()
+	}
+
+	// ---- concurrency: overlapping plain-HTTP requests on a secure-cookie proxy ----
+	if a.Tier == "thorough" {
+		cases = append(cases, stormCases(r, dir, 16, 1500, 150)...)
+	} else {
+		cases = append(cases, stormCases(r, dir, 16, 400, 40)...)
 	}
 
 	// ---- the authenticator: every route of its service mux ----
